@@ -104,6 +104,11 @@ func (f *Frame) havocMods(ms ModSet, allowed map[string][]T) State {
 	pre := f.st.clone()
 	allocPre := f.alloc()
 	for _, name := range sortedModKeys(ms) {
+		if strings.HasPrefix(name, "IT_") {
+			// iteration state (visited set / position of a range loop) is local to a frame: a callee, even a recursive
+			// instance of the same function whose own loop state carries the same name, cannot change the caller's
+			continue
+		}
 		sort, ok := f.enc.stateSort[name]
 		if !ok {
 			// not touched by this encoding so far: it must still get a new version, or a later first
